@@ -51,6 +51,7 @@ def check(ctx, rep):
     rep.rule("R17d", "scope / program state: pushed field sequence = restored field sequence", floor=2)
     rep.rule("R17e", "every path of every command handler sets the program counter", floor=12)
     rep.rule("R17f", "attributes read after isinstance narrowing exist in the narrowed class", floor=5)
+    rep.rule("R17h", "repeat variables and locals are scoped by stack: each loop saves the repeat map and restores it when it ends", floor=1)
     rep.rule("R17g", "keyword discriminators of one if/elif chain index the same position", floor=1)
     mod = prog.modules.get("simpletal.simpleTAL")
     tales = prog.modules.get("simpletal.simpleTALES")
@@ -328,6 +329,11 @@ def check(ctx, rep):
                                 rep.add("R17f", f"{f.qualname}: {var}.{a.attr} after isinstance({var}, {C.name})", ok, ctx.where(f, a),
                                         "" if ok else f"class {C.name} (and its bases) define no attribute `{a.attr}`: this branch raises AttributeError whenever it runs",
                                         key=f"R17f|{f.qualname}|{C.name}.{a.attr}")
+
+    # ------------------------------------------------------------------ R17h
+    from .c18 import context_symmetry
+
+    context_symmetry(ctx, rep, "R17h", tales)
 
     # ------------------------------------------------------------------ R17g
     n_chain = 0
